@@ -697,6 +697,16 @@ def case(arg):
                                 "error": re.sub(r"/tmp/\S+|\d+", "_", last)[:120]},
                          "w": {**w0, "tail": tail[-1500:], "b_files": B["files"]}})
             return {"viol": viol, "cfg": cfg, "n_json": n_json, "n_refs": 0, "n_ext_links": 0, "outcome": "B failed", "vias": []}
+        if seed % 4 == 1:
+            # the same project once more with `hide_undoc: true`: entities of A have no documentation lines in B - the run has to complete
+            write_proj(b_root + "_hu", B["files"], {**b_opts, "hide_undoc": True})
+            rh = site.run_cli(b_root + "_hu")
+            if rh["rc"] != 0:
+                tail = (rh["stderr"] or rh["stdout"]).strip()
+                last = tail.splitlines()[-1] if tail else ""
+                viol.append({"kf": {"kind": "run_of_B_fails", "scenario": scenario + "+hide_undoc", "mode": mode if scenario in ("healthy", "broken_listed_first") else "n/a",
+                                    "error": re.sub(r"/tmp/\S+|\d+", "_", last)[:120]},
+                             "w": {**w0, "tail": tail[-1500:], "b_files": B["files"]}})
         b_pages = page_links(b_out)
         if not expect_links:
             # costs only the links: same set of pages as without `external`
